@@ -16,7 +16,7 @@ From PyLib Require Import PyVal PyBuiltins Ideal Sphere.
 From Coquelicot Require Import Coquelicot.
 From Spec Require Import AngleSpec Precession PrecessionBack PrecessionCompare PrecessionRoute.
 From Gen Require Import M_base M_Angle M_Epoch M_Coordinates.
-From Proofs.C06 Require Import C06_angle C06_jde C06_equ C06_aux C06_orb C06_main C06_back C06_cmp.
+From Proofs.C06 Require Import C06_angle C06_jde C06_equ C06_aux C06_orb C06_main C06_back C06_cmp C06_route.
 Import ListNotations.
 Open Scope R_scope.
 
@@ -254,6 +254,19 @@ Proof.
   - exact route_first_order.
 Qed.
 
+(* ... and for FINITE intervals with one end at J2000 (the other epoch within 5 centuries): with
+   R_route T t = Rz(z) Ry(-theta) Rz(zeta) (what precession_equatorial does, C06_equ_rotation) and
+   E_route T t = Rx(eps(T+t)) . [Rz(p+Pi) Rx(-eta) Rz(-Pi)] . Rx(-eps(T)) (precession_ecliptical between the
+   conversions Rx(-/+ eps) of property C05, eps = what mean_obliquity returns, C06_obliquity), for every
+   unit vector the two images are within a chord of 8.5e-7 = 4.9e-5 degree, hence within 1e-4 degree.
+   (Composition of the proved rotation forms; the generated conversion calls themselves are C05's.) *)
+Theorem C06_route_J2000 : forall x v, -5 <= x <= 5 -> dot v v = 1 ->
+  (chord (E_route 0 x v) (R_route 0 x v) <= 85 / 100000000 /\
+   cos (d2r (1 / 10000)) <= dot (E_route 0 x v) (R_route 0 x v)) /\
+  (chord (E_route x (- x) v) (R_route x (- x) v) <= 85 / 100000000 /\
+   cos (d2r (1 / 10000)) <= dot (E_route x (- x) v) (R_route x (- x) v)).
+Proof. exact route_J2000. Qed.
+
 Redirect "C06_equ_closed_form.assumptions" Print Assumptions C06_equ_closed_form.
 Redirect "C06_equ_rotation.assumptions" Print Assumptions C06_equ_rotation.
 Redirect "C06_equ_identity.assumptions" Print Assumptions C06_equ_identity.
@@ -275,3 +288,4 @@ Redirect "C06_equ_there_and_back.assumptions" Print Assumptions C06_equ_there_an
 Redirect "C06_ecl_there_and_back.assumptions" Print Assumptions C06_ecl_there_and_back.
 Redirect "C06_newcomb_vs_fk5.assumptions" Print Assumptions C06_newcomb_vs_fk5.
 Redirect "C06_route_first_order.assumptions" Print Assumptions C06_route_first_order.
+Redirect "C06_route_J2000.assumptions" Print Assumptions C06_route_J2000.
